@@ -299,7 +299,9 @@ partial def tyOf (c : Ctx) (fn : String) (s : Scope) (e : GExpr) : Scope × Opti
     let s := elems.foldl (fun s e =>
       let (s, te) := tyOf c fn s e
       match el, te with
-      | some el, some te => if assignable c el te then s else s.err "assign-mismatch" fn "array element"
+      | some el, some te =>
+        if assignable c el te then s
+        else s.err "assign-mismatch" fn ("array element: want " ++ reprStr (norm el) ++ " got " ++ reprStr (norm te))
       | _, _ => s) s
     (s, some t)
   | .blocke t _ _ => (s.err "outside-subset" fn "block expression", some t)
